@@ -22,6 +22,7 @@ SPEC = {
                     [r'''interp1d\(.*fill_value=['"]extrapolate['"]''', 'interp1d_extrapolate', []],
                     [r'interp1d\(', 'interp1d', []]]},
     ],
-    'theorems': [],
+    'theorems': ['IblVerif.Tie.C19.threshold_eq', 'IblVerif.Tie.C19.drift_ppm_eq', 'IblVerif.Tie.C19.interp_calls_linear_eq',
+                 'IblVerif.Tie.C19.interp_calls_interp_eq'],
     'covers': 'sync_timestamps: threshold of the first pass (= tbin); _interp_fcn: drift_ppm formula, external calls per mode',
 }
